@@ -107,3 +107,6 @@ META = {
              "boundaries are exercised by c19.clock against the real clock."),
     'technique': 'Coq model with Panic outcomes + inversion theorems + translator obligations (code hashes recomputed in Coq) + extracted-model correspondence incl. call histories on one Server',
 }
+
+# ROUND-8-APPEND
+PROP['rule'] += " ROUND 8: the payload check is a callback like the domain check: every c19.check case is answered again with a checker giving CheckPayload's verdict without its error (must give the same result) and, when accepted, with checkers refusing as (false, nil) and (false, err) (must reject); a difference is returned as 'payload-verdict-ignored and so mismatches the model. Coq: C19_callback_refusal_rejects (for any callbacks, a refusing payload or domain callback never yields an accepted proof; corollary of C19_accepted_implies, whose cp is universally quantified)."
